@@ -21,30 +21,38 @@ package throttle
 // TInv: the throttle's flag mirrors the wrapped sink; while a file is open the
 // frames already in it plus the tokens still available cover a minimum-length clip.
 //@ pred (t *ThrottledRecorder) TInv() :=
-//@      !isnil(t.recorder) && ref(t.recorder) != 0 && !isnil(t.listener) && t.bucket != nil
+//@      !isnil(t.recorder) && ref(t.recorder) != 0 && ref(t.recorder) != ref(t) && !isnil(t.listener) && t.bucket != nil
 //@   && t.recording == t.recorder.open
 //@   && t.bucket.binv() && !isnil(t.bucket.clock)
 //@   && (t.recording ==> t.recorder.inFile + t.bucket.availableTokens >= t.minRecordingLength)
 
+// The throttle as a sink of the processor: it is open from a start it accepted (even a
+// throttled one) to the next stop; the wrapped recorder is open only within that span.
+//@ pred (t *ThrottledRecorder) outerInv() := t.TInv() && (t.recording ==> t.open)
+
 //@ func (throttler *ThrottledRecorder) CheckCanRecord
-//@   requires throttler != nil && throttler.TInv()
-//@   ensures [C06] (result == nil) == throttler.recorder.canRec && ncalls("CheckCanRecord") == 1
+//@   implements [C12,C06] recorder.Recorder inv outerInv
+//@   requires throttler != nil && throttler.outerInv()
+//@   ensures [C04,C06] (result == nil) == throttler.recorder.canRec && ncalls("CheckCanRecord") == 1
 
 //@ func (throttler *ThrottledRecorder) maybeStartRecording
 //@   requires throttler != nil && throttler.TInv() && !throttler.recording
 //@   modifies throttler.recording, throttler.bucket.availableTokens, throttler.bucket.latestTick, throttler.bucket.gLastAdj, throttler.bucket.gEarned
 //@   modifies throttler.recorder.open, throttler.recorder.inFile, throttler.recorder.wfault, throttler.recorder.starts, throttler.recorder.startOK, throttler.recorder.bg, throttler.recorder.thresh
-//@   ensures throttler.TInv() && throttler.bucket.availableTokens >= old(throttler.bucket.availableTokens)
+//@   ensures [C06,C12] throttler.TInv() && throttler.bucket.availableTokens >= old(throttler.bucket.availableTokens)
 //@   ensures [C06] throttler.bucket.availableTokens >= throttler.minRecordingLength ==> (result == nil) == old(throttler.recorder.startOK) && throttler.recording == old(throttler.recorder.startOK) && throttler.recorder.starts == old(throttler.recorder.starts) + (old(throttler.recorder.startOK) ? 1 : 0)
 //@   ensures [C06] throttler.bucket.availableTokens >= throttler.minRecordingLength && throttler.recording ==> throttler.recorder.bg == ref(background) && throttler.recorder.thresh == tempThresh && throttler.recorder.inFile == 0
 //@   ensures [C06] throttler.bucket.availableTokens < throttler.minRecordingLength ==> result == nil && !throttler.recording && throttler.recorder.starts == old(throttler.recorder.starts) && throttler.recorder.startOK == old(throttler.recorder.startOK)
 //@   ensures [C06] ncalls("StartRecording") <= 1 && (ncalls("StartRecording") == 1 ==> callarg("StartRecording", 1, 1) == background && callarg("StartRecording", 1, 2) == tempThresh)
 
 //@ func (throttler *ThrottledRecorder) StartRecording
+//@   implements [C12,C06] recorder.Recorder inv outerInv
 //@   requires throttler != nil && throttler.TInv() && !throttler.recording
+//@   modifies throttler.open
+//@   ghost_exit throttler.open = (result == nil)
 //@   modifies throttler.recording, throttler.backgroundFrame, throttler.tempThresh, throttler.bucket.availableTokens, throttler.bucket.latestTick, throttler.bucket.gLastAdj, throttler.bucket.gEarned, throttler.listener.events
 //@   modifies throttler.recorder.open, throttler.recorder.inFile, throttler.recorder.wfault, throttler.recorder.starts, throttler.recorder.startOK, throttler.recorder.bg, throttler.recorder.thresh
-//@   ensures throttler.TInv()
+//@   ensures [C06,C12] throttler.TInv()
 //@   ensures [C06] throttler.bucket.availableTokens >= throttler.minRecordingLength ==> (result == nil) == old(throttler.recorder.startOK) && throttler.recording == old(throttler.recorder.startOK) && throttler.recorder.starts == old(throttler.recorder.starts) + (old(throttler.recorder.startOK) ? 1 : 0) && throttler.listener.events == old(throttler.listener.events)
 //@   ensures [C06,C11,C15] throttler.bucket.availableTokens >= throttler.minRecordingLength && throttler.recording ==> throttler.recorder.bg == ref(background) && throttler.recorder.thresh == tempThresh
 //@   ensures [C06] throttler.bucket.availableTokens < throttler.minRecordingLength ==> result == nil && !throttler.recording && throttler.recorder.starts == old(throttler.recorder.starts) && throttler.listener.events == old(throttler.listener.events) + 1
@@ -52,23 +60,29 @@ package throttle
 //@   ensures [C05] throttler.recorder.writes == old(throttler.recorder.writes) && throttler.bucket.gTaken == old(throttler.bucket.gTaken)
 
 //@ func (throttler *ThrottledRecorder) StopRecording
+//@   implements [C12,C06] recorder.Recorder inv outerInv
 //@   requires throttler != nil && throttler.TInv()
+//@   modifies throttler.open
+//@   ghost_exit throttler.open = false
 //@   modifies throttler.recording, throttler.recorder.open, throttler.recorder.stops, throttler.recorder.stopOK
-//@   ensures throttler.TInv() && !throttler.recording
+//@   ensures [C06,C12] throttler.TInv() && !throttler.recording
 //@   ensures [C06] old(throttler.recording) ==> throttler.recorder.stops == old(throttler.recorder.stops) + 1 && (result == nil) == old(throttler.recorder.stopOK)
 //@   ensures [C06] !old(throttler.recording) ==> throttler.recorder.stops == old(throttler.recorder.stops) && result == nil
 //@   ensures [C06] ncalls("StopRecording") == (old(throttler.recording) ? 1 : 0)
 //@   ensures [C05] throttler.recorder.writes == old(throttler.recorder.writes) && throttler.bucket.gTaken == old(throttler.bucket.gTaken)
 
 //@ func (throttler *ThrottledRecorder) WriteFrame
-//@   requires throttler != nil && throttler.TInv()
+//@   implements [C12,C06] recorder.Recorder inv outerInv
+//@   requires throttler != nil && throttler.outerInv() && throttler.open
+//@   modifies throttler.open
+//@   ghost_exit throttler.open = old(throttler.open)
 //@   modifies throttler.recording, throttler.bucket.availableTokens, throttler.bucket.latestTick, throttler.bucket.gLastAdj, throttler.bucket.gEarned, throttler.bucket.gTaken, throttler.bucket.gSince, throttler.listener.events
 //@   modifies throttler.recorder.open, throttler.recorder.inFile, throttler.recorder.wfault, throttler.recorder.starts, throttler.recorder.startOK, throttler.recorder.bg, throttler.recorder.thresh
 //@   modifies throttler.recorder.next, throttler.recorder.first, throttler.recorder.writes, throttler.recorder.stops, throttler.recorder.stopOK
-//@   ensures throttler.TInv()
+//@   ensures [C06,C12] throttler.TInv()
 //@   ensures [C05] throttler.recorder.writes - old(throttler.recorder.writes) == throttler.bucket.gTaken - old(throttler.bucket.gTaken) && (throttler.bucket.gTaken == old(throttler.bucket.gTaken) || throttler.bucket.gTaken == old(throttler.bucket.gTaken) + 1)
 //@   ensures [C05] throttler.recorder.writes - old(throttler.recorder.writes) == throttler.bucket.gSince - old(throttler.bucket.gSince) && throttler.bucket.gSince <= throttler.bucket.capacity + 1 + throttler.bucket.gEarned
-//@   ensures [C06] ncalls("WriteFrame") <= 1 && (ncalls("WriteFrame") == 1 ==> callarg("WriteFrame", 1, 1) == frame && result == callres("WriteFrame", 1))
+//@   ensures [C01,C06] ncalls("WriteFrame") <= 1 && (ncalls("WriteFrame") == 1 ==> callarg("WriteFrame", 1, 1) == frame && result == callres("WriteFrame", 1))
 //@   ensures [C06] throttler.recorder.writes != old(throttler.recorder.writes) ==> ncalls("WriteFrame") == 1 && throttler.listener.events == old(throttler.listener.events) && throttler.recorder.stops == old(throttler.recorder.stops) && throttler.recording
 //@   ensures [C06] old(throttler.recording) ==> throttler.recorder.starts == old(throttler.recorder.starts)
 //@   ensures [C06] old(throttler.recording) && throttler.recorder.writes == old(throttler.recorder.writes) ==> throttler.listener.events == old(throttler.listener.events) + 1 && throttler.recorder.stops == old(throttler.recorder.stops) + 1 && !throttler.recording && throttler.recorder.inFile >= throttler.minRecordingLength
@@ -80,7 +94,7 @@ package throttle
 
 //@ func NewThrottledRecorderWithClock(baseRecorder, config, minSeconds, listener, clock, camera)
 //@   allocates
-//@   requires config != nil && !isnil(baseRecorder) && ref(baseRecorder) != 0 && !isnil(camera) && !baseRecorder.open
+//@   requires config != nil && !isnil(baseRecorder) && allocated(baseRecorder) && !isnil(camera) && !baseRecorder.open
 //@   requires time.dsecs(config.BucketSize) >= 0.0 && camera.FPS() >= 0
 //@   ensures fresh(result) && result.TInv() && !result.recording && result.recorder == baseRecorder
 //@   ensures [C05] result.bucket.capacity == floor(time.dsecs(config.BucketSize)) * camera.FPS() && result.bucket.availableTokens == result.bucket.capacity
@@ -92,7 +106,7 @@ package throttle
 
 //@ func NewThrottledRecorder(baseRecorder, config, minSeconds, eventListener, camera)
 //@   allocates
-//@   requires config != nil && !isnil(baseRecorder) && ref(baseRecorder) != 0 && !isnil(camera) && !baseRecorder.open
+//@   requires config != nil && !isnil(baseRecorder) && allocated(baseRecorder) && !isnil(camera) && !baseRecorder.open
 //@   requires time.dsecs(config.BucketSize) >= 0.0 && camera.FPS() >= 0
 //@   ensures fresh(result) && result.TInv() && !result.recording && result.recorder == baseRecorder
 //@   ensures [C05] result.bucket.capacity == floor(time.dsecs(config.BucketSize)) * camera.FPS() && result.bucket.availableTokens == result.bucket.capacity
